@@ -12,7 +12,7 @@
 
    Part A: validation and shape of the assembled system.
    Part B: soundness of the rows, shape of the built spline, main theorem. *)
-From Coq Require Import List Arith NArith ZArith Bool Lia ZifyBool ZifyN Field Ring.
+From Coq Require Import List Arith NArith ZArith Bool Lia ZifyBool ZifyN ZifyNat Field Ring.
 From BSpl Require Import ListAux Scalar Outcome Support Poly Spline Interp Spec
   Proofs_Support Proofs_Scalar Proofs_Poly Proofs_Eval Proofs_Outcome.
 Import ListNotations.
@@ -242,6 +242,463 @@ Section InterpFacts.
     f_equal. f_equal.
     rewrite <- Nat.negb_odd in E. apply negb_false_iff in E. apply Nat.odd_spec in E.
     destruct E as [m ->]. lia.
+  Qed.
+
+  (* ================================================================== *)
+  (* Part B: soundness of the rows                                       *)
+  (* ================================================================== *)
+
+  (* the block of order+1 coefficients starting at column [base] *)
+  Definition chunk (order base : nat) (c : list F) : list F := firstn (order + 1) (skipn base c).
+
+  Lemma nth_firstn_local {A} (l : list A) n j d : (j < n)%nat -> nth j (firstn n l) d = nth j l d.
+  Proof.
+    revert n j; induction l as [|a l IH]; intros n j H.
+    - rewrite firstn_nil. reflexivity.
+    - destruct n as [|n]; [lia|]. destruct j as [|j]; cbn [firstn nth]; [reflexivity|].
+      apply IH. lia.
+  Qed.
+
+  Lemma nth_skipn_local {A} (l : list A) b j d : nth j (skipn b l) d = nth (b + j) l d.
+  Proof.
+    revert l; induction b as [|b IH]; intros l; [reflexivity|].
+    destruct l as [|a l]; [destruct j; reflexivity|]. cbn [skipn Nat.add nth]. apply IH.
+  Qed.
+
+  Lemma skipn_skipn_local {A} (l : list A) a b : skipn a (skipn b l) = skipn (b + a) l.
+  Proof.
+    revert l; induction b as [|b IH]; intros l; [reflexivity|].
+    destruct l as [|e l]; [rewrite !skipn_nil; reflexivity|]. cbn [skipn Nat.add]. apply IH.
+  Qed.
+
+  Lemma nth_chunk order base (c : list F) j : (j < order + 1)%nat ->
+    nth j (chunk order base c) f0 = nth (base + j) c f0.
+  Proof. intros H. unfold chunk. rewrite nth_firstn_local by exact H. apply nth_skipn_local. Qed.
+
+  Lemma length_chunk order base (c : list F) : (base + order + 1 <= length c)%nat ->
+    length (chunk order base c) = (order + 1)%nat.
+  Proof. intros H. unfold chunk. rewrite firstn_length, skipn_length. lia. Qed.
+
+  (* folding a row over entries given by a map *)
+  Lemma fold_entries_map (c : list F) (h : nat -> nat * F) l a :
+    fold_left (fun acc '(j, v) => (acc + v * nth j c f0)%F) (map h l) a
+    = fold_left (fun acc i => (acc + snd (h i) * nth (fst (h i)) c f0)%F) l a.
+  Proof.
+    revert a; induction l as [|i l IH]; intros a; [reflexivity|].
+    cbn [map fold_left]. rewrite IH. f_equal. destruct (h i); reflexivity.
+  Qed.
+
+  (* a sum of terms w * u^j * p_j over consecutive indices is w * p(u) *)
+  Lemma fold_seq_peval (p : list F) (t : nat -> F) u s a w n :
+    length p = n ->
+    (forall j, (j < n)%nat -> t (s + j)%nat = (w * fpow u j * nth j p f0)%F) ->
+    fold_left (fun acc i => (acc + t i)%F) (seq s n) a = (a + w * peval p u)%F.
+  Proof.
+    intros <-. revert s a w; induction p as [|b p IH]; intros s a w H.
+    - cbn [length seq fold_left peval]. ring.
+    - cbn [length seq fold_left peval].
+      rewrite (IH (S s) (a + t s)%F (w * u)%F).
+      + pose proof (H 0%nat ltac:(cbn [length]; lia)) as H0.
+        rewrite Nat.add_0_r in H0. cbn [fpow nth] in H0. rewrite H0. ring.
+      + intros j Hj. pose proof (H (S j) ltac:(cbn [length]; lia)) as Hj'.
+        rewrite Nat.add_succ_r in Hj'. cbn [Nat.add]. rewrite Hj'. cbn [fpow nth]. ring.
+  Qed.
+
+  (* the value row evaluates the chunk at dx *)
+  Lemma row_apply_value_row order base dx y (c : list F) :
+    (base + order + 1 <= length c)%nat ->
+    row_apply (value_row order base dx y) c = peval (firstn (order + 1) (skipn base c)) dx.
+  Proof.
+    intros H. fold (chunk order base c). unfold row_apply, value_row. cbn [rentries].
+    rewrite fold_entries_map.
+    rewrite (fold_seq_peval (chunk order base c) _ dx 0%nat f0 f1 (order + 1)%nat).
+    - ring.
+    - apply length_chunk. exact H.
+    - intros j Hj. cbn [Nat.add fst snd]. rewrite nth_chunk by exact Hj. ring.
+  Qed.
+
+  Lemma deriv_entries_false order base d dx :
+    deriv_entries order base d dx false
+    = map (fun i => ((base + i)%nat, (faculty_ratio i (i - d) * fpow dx (i - d))%F))
+          (seq d (order + 1 - d)).
+  Proof. reflexivity. Qed.
+
+  Lemma deriv_entries_true order base d dx :
+    deriv_entries order base d dx true
+    = map (fun i => ((base + i)%nat, (- faculty_ratio i (i - d) * fpow dx (i - d))%F))
+          (seq d (order + 1 - d)).
+  Proof. reflexivity. Qed.
+
+  (* derivative entries, any accumulator (the form used for the two-block rows) *)
+  Lemma fold_deriv_entries order base d dx (c : list F) a :
+    (d <= order)%nat -> (base + order + 1 <= length c)%nat ->
+    fold_left (fun acc '(j, v) => (acc + v * nth j c f0)%F) (deriv_entries order base d dx false) a
+    = (a + peval (pderivn d (chunk order base c)) dx)%F /\
+    fold_left (fun acc '(j, v) => (acc + v * nth j c f0)%F) (deriv_entries order base d dx true) a
+    = (a - peval (pderivn d (chunk order base c)) dx)%F.
+  Proof.
+    intros Hd H.
+    assert (Hl : length (pderivn d (chunk order base c)) = (order + 1 - d)%nat).
+    { rewrite length_pderivn, length_chunk by exact H. reflexivity. }
+    assert (Hn : forall j, (j < order + 1 - d)%nat ->
+               nth j (pderivn d (chunk order base c)) f0
+               = (faculty_ratio (d + j) (d + j - d) * nth (base + (d + j)) c f0)%F).
+    { intros j Hj. rewrite nth_pderivn, nth_chunk by lia.
+      replace (d + j - d)%nat with j by lia. rewrite (Nat.add_comm j d). reflexivity. }
+    split.
+    - rewrite deriv_entries_false, fold_entries_map.
+      rewrite (fold_seq_peval (pderivn d (chunk order base c)) _ dx d a f1 (order + 1 - d)%nat Hl).
+      + ring.
+      + intros j Hj. cbn [fst snd]. rewrite (Hn j Hj).
+        replace (d + j - d)%nat with j by lia. ring.
+    - rewrite deriv_entries_true, fold_entries_map.
+      rewrite (fold_seq_peval (pderivn d (chunk order base c)) _ dx d a (- f1)%F (order + 1 - d)%nat Hl).
+      + ring.
+      + intros j Hj. cbn [fst snd]. rewrite (Hn j Hj).
+        replace (d + j - d)%nat with j by lia. ring.
+  Qed.
+
+  (* a row made of derivative entries evaluates the d-th derivative of the chunk at dx *)
+  Lemma row_apply_deriv_entries order base d dx rhs (c : list F) :
+    (1 <= d <= order)%nat -> (base + order + 1 <= length c)%nat ->
+    row_apply (mkRow (deriv_entries order base d dx false) rhs) c
+    = peval (pderivn d (firstn (order + 1) (skipn base c))) dx /\
+    row_apply (mkRow (deriv_entries order base d dx true) rhs) c
+    = (- peval (pderivn d (firstn (order + 1) (skipn base c))) dx)%F.
+  Proof.
+    intros Hd H. fold (chunk order base c). unfold row_apply. cbn [rentries].
+    destruct (fold_deriv_entries order base d dx c f0 ltac:(lia) H) as [-> ->].
+    split; ring.
+  Qed.
+
+  (* the two-block smoothness row *)
+  Lemma row_apply_smooth_row order b1 b2 d dx1 dx2 (c : list F) :
+    (d <= order)%nat -> (b1 + order + 1 <= length c)%nat -> (b2 + order + 1 <= length c)%nat ->
+    row_apply (mkRow (deriv_entries order b1 d dx1 false ++ deriv_entries order b2 d dx2 true) f0) c
+    = (peval (pderivn d (chunk order b1 c)) dx1 - peval (pderivn d (chunk order b2 c)) dx2)%F.
+  Proof.
+    intros Hd H1 H2. unfold row_apply. cbn [rentries]. rewrite fold_left_app.
+    destruct (fold_deriv_entries order b1 d dx1 c f0 Hd H1) as [-> _].
+    destruct (fold_deriv_entries order b2 d dx2 c
+                (f0 + peval (pderivn d (chunk order b1 c)) dx1)%F Hd H2) as [_ ->].
+    ring.
+  Qed.
+
+  (* ------------------------------------------------------------------ *)
+  (* shape of the built spline                                           *)
+  (* ------------------------------------------------------------------ *)
+
+  Lemma length_chunks k n (l : list F) : length (chunks k n l) = n.
+  Proof. revert l; induction n as [|n IH]; intros l; cbn [chunks length]; auto. Qed.
+
+  Lemma nth_chunks k n (l : list F) j : (j < n)%nat ->
+    nth j (chunks k n l) [] = firstn k (skipn (k * j) l).
+  Proof.
+    revert l j; induction n as [|n IH]; intros l j H; [lia|].
+    destruct j as [|j]; cbn [chunks nth].
+    - rewrite Nat.mul_0_r. reflexivity.
+    - rewrite IH by lia. rewrite skipn_skipn_local, Nat.mul_succ_r, (Nat.add_comm (k * j) k).
+      reflexivity.
+  Qed.
+
+  Lemma Forall_chunks k n (l : list F) : (k * n <= length l)%nat ->
+    Forall (fun c => length c = k) (chunks k n l).
+  Proof.
+    revert l; induction n as [|n IH]; intros l H; cbn [chunks]; constructor.
+    - rewrite Nat.mul_succ_r in H. apply firstn_length_le. lia.
+    - apply IH. rewrite Nat.mul_succ_r in H. rewrite skipn_length. lia.
+  Qed.
+
+  Lemma chunk_range order j m : (j < m)%nat -> ((order + 1) * j + order + 1 <= (order + 1) * m)%nat.
+  Proof.
+    intros H. replace ((order + 1) * j + order + 1)%nat with ((order + 1) * S j)%nat
+      by (rewrite Nat.mul_succ_r; lia).
+    apply Nat.mul_le_mono_l. lia.
+  Qed.
+
+  (* chunks of the right number and length give a valid spline *)
+  Lemma interp_build_ok order (x : support F) (c : list F) :
+    SInv x -> GInv (sgrid x) -> 2 <= sup_size x ->
+    length c = ((order + 1) * (N.to_nat (sup_size x) - 1))%nat ->
+    interp_build order x c = Ok (mkSpl x order (chunks (order + 1) (nnodes x - 1) c)) /\
+    SplInv (mkSpl x order (chunks (order + 1) (nnodes x - 1) c)).
+  Proof.
+    intros Hs Hg H2 Hc. unfold interp_build.
+    rewrite (sup_size_inv x Hs) in *. fold (nnodes x) in *.
+    assert (Hn : nlen (chunks (order + 1) (nnodes x - 1) c) = nintervals x).
+    { unfold nlen, nintervals. rewrite length_chunks. unfold nnodes.
+      destruct (sstop x - sstart x =? 0) eqn:E0; lia. }
+    split.
+    - unfold spl_ctor, spl_valid. rewrite Hn.
+      rewrite num_intervals_spec, contains_intervals_spec, sup_size_inv by exact Hs.
+      unfold nintervals.
+      destruct (sstop x - sstart x =? 0) eqn:E0; [lia|].
+      destruct (1 <? sstop x - sstart x) eqn:E1; [|lia].
+      destruct (2 <=? sstop x - sstart x) eqn:E2; [|lia].
+      rewrite N.eqb_refl. reflexivity.
+    - unfold SplInv. cbn [ssup scoefs sord].
+      split; [exact Hs|]. split; [exact Hg|]. split; [exact Hn|].
+      apply Forall_chunks. rewrite Hc. apply Nat.le_refl.
+  Qed.
+
+  Lemma piece_build order (x : support F) (c : list F) k : imem k x ->
+    piece (mkSpl x order (chunks (order + 1) (nnodes x - 1) c)) k
+    = chunk order ((order + 1) * N.to_nat (k - sstart x)) c.
+  Proof.
+    intros [H1 H2]. unfold piece. cbn [ssup scoefs].
+    destruct ((sstart x <=? k) && (k + 1 <? sstop x)) eqn:E; [|lia].
+    rewrite nth_chunks by (unfold nnodes; lia). reflexivity.
+  Qed.
+
+  (* ------------------------------------------------------------------ *)
+  (* the equations a solving vector satisfies, by relative node index     *)
+  (* ------------------------------------------------------------------ *)
+
+  Lemma last_nth_local {A} (l : list A) d : last l d = nth (length l - 1) l d.
+  Proof.
+    induction l as [|a l IH]; [reflexivity|].
+    destruct l as [|b l]; [reflexivity|].
+    change (last (a :: b :: l) d) with (last (b :: l) d). rewrite IH.
+    cbn [length]. replace (S (S (length l)) - 1)%nat with (S (S (length l) - 1)) by lia.
+    reflexivity.
+  Qed.
+
+  Lemma in_sys_first order (x : support F) y bs :
+    In (value_row order 0 ((xnode x 0 - xnode x 1) / f2)%F (nth 0 y f0)) (sys_rows order x y bs).
+  Proof. unfold sys_rows. apply in_or_app. left. left. reflexivity. Qed.
+
+  Lemma in_sys_bfirst order (x : support F) y bs b : In b bs -> bnode b = FIRST ->
+    In (mkRow (deriv_entries order 0 (bderiv b) ((xnode x 0 - xnode x 1) / f2)%F false) (bvalue b))
+       (sys_rows order x y bs).
+  Proof.
+    intros Hb Hn. unfold sys_rows. apply in_or_app. left. right.
+    unfold bfirst. apply in_flat_map. exists b. split; [exact Hb|]. rewrite Hn. left. reflexivity.
+  Qed.
+
+  Lemma in_sys_interior order (x : support F) y bs c r :
+    (1 <= c)%nat -> (c + 1 < nnodes x)%nat -> In r (irows order x y c) ->
+    In r (sys_rows order x y bs).
+  Proof.
+    intros H1 H2 Hr. unfold sys_rows. apply in_or_app. right. apply in_or_app. left.
+    apply in_concat. exists (irows order x y c). split; [|exact Hr].
+    apply in_map. apply in_seq. lia.
+  Qed.
+
+  Lemma in_sys_last order (x : support F) y bs :
+    In (value_row order ((order + 1) * (nnodes x - 2))
+          ((xnode x (nnodes x - 1) - xnode x (nnodes x - 2)) / f2)%F (last y f0))
+       (sys_rows order x y bs).
+  Proof. unfold sys_rows. apply in_or_app. right. apply in_or_app. right. left. reflexivity. Qed.
+
+  Lemma in_sys_blast order (x : support F) y bs b : In b bs -> bnode b = LAST ->
+    In (mkRow (deriv_entries order ((order + 1) * (nnodes x - 2)) (bderiv b)
+                 ((xnode x (nnodes x - 1) - xnode x (nnodes x - 2)) / f2)%F false) (bvalue b))
+       (sys_rows order x y bs).
+  Proof.
+    intros Hb Hn. unfold sys_rows. apply in_or_app. right. apply in_or_app. right. right.
+    unfold bnd_rows_last. apply in_flat_map. exists b. split; [exact Hb|]. rewrite Hn. left. reflexivity.
+  Qed.
+
+  Lemma sys_rows_sound order (x : support F) y bs (c : list F) :
+    (1 <= order)%nat -> (2 <= nnodes x)%nat -> length y = nnodes x ->
+    length c = ((order + 1) * (nnodes x - 1))%nat ->
+    solves (sys_rows order x y bs) c ->
+    (forall j, (j + 1 < nnodes x)%nat ->
+       peval (chunk order ((order + 1) * j) c) ((xnode x j - xnode x (j + 1)) / f2)%F = nth j y f0 /\
+       peval (chunk order ((order + 1) * j) c) ((xnode x (j + 1) - xnode x j) / f2)%F
+       = nth (j + 1) y f0) /\
+    (forall j d, (j + 2 < nnodes x)%nat -> (1 <= d < order)%nat ->
+       peval (pderivn d (chunk order ((order + 1) * j) c)) ((xnode x (j + 1) - xnode x j) / f2)%F
+       = peval (pderivn d (chunk order ((order + 1) * (j + 1)) c))
+           ((xnode x (j + 1) - xnode x (j + 1 + 1)) / f2)%F) /\
+    (forall b, In b bs -> (1 <= bderiv b <= order)%nat -> bnode b = FIRST ->
+       peval (pderivn (bderiv b) (chunk order 0 c)) ((xnode x 0 - xnode x 1) / f2)%F = bvalue b) /\
+    (forall b, In b bs -> (1 <= bderiv b <= order)%nat -> bnode b = LAST ->
+       peval (pderivn (bderiv b) (chunk order ((order + 1) * (nnodes x - 2)) c))
+         ((xnode x (nnodes x - 1) - xnode x (nnodes x - 2)) / f2)%F = bvalue b).
+  Proof.
+    intros Ho Hn Hy Hc Hsol.
+    assert (R : forall j, (j + 1 < nnodes x)%nat -> ((order + 1) * j + order + 1 <= length c)%nat).
+    { intros j Hj. rewrite Hc. apply chunk_range. lia. }
+    split; [|split; [|split]].
+    - intros j Hj. split.
+      + (* left end of interval j *)
+        destruct j as [|j'].
+        * pose proof (Hsol _ (in_sys_first order x y bs)) as E.
+          rewrite row_apply_value_row in E by (pose proof (R 0%nat ltac:(lia)); lia).
+          cbn [rrhs value_row] in E. rewrite Nat.mul_0_r. exact E.
+        * assert (Hin : In (value_row order ((order + 1) * S j')
+                              ((xnode x (S j') - xnode x (S j' + 1)) / f2)%F (nth (S j') y f0))
+                           (sys_rows order x y bs)).
+          { apply (in_sys_interior order x y bs (S j')); [lia | lia |].
+            unfold irows. right. left. reflexivity. }
+          pose proof (Hsol _ Hin) as E.
+          rewrite row_apply_value_row in E by (apply R; lia).
+          cbn [rrhs value_row] in E. exact E.
+      + (* right end of interval j *)
+        destruct (Nat.eq_dec (j + 2) (nnodes x)) as [Hl|Hl].
+        * pose proof (Hsol _ (in_sys_last order x y bs)) as E.
+          rewrite row_apply_value_row in E by (apply R; lia).
+          cbn [rrhs value_row] in E. rewrite last_nth_local, Hy in E.
+          replace (nnodes x - 2)%nat with j in E by lia.
+          replace (nnodes x - 1)%nat with (j + 1)%nat in E by lia. exact E.
+        * assert (Hin : In (value_row order ((order + 1) * (j + 1 - 1))
+                              ((xnode x (j + 1) - xnode x (j + 1 - 1)) / f2)%F (nth (j + 1) y f0))
+                           (sys_rows order x y bs)).
+          { apply (in_sys_interior order x y bs (j + 1)); [lia | lia |].
+            unfold irows. left. reflexivity. }
+          pose proof (Hsol _ Hin) as E. rewrite Nat.add_sub in E.
+          rewrite row_apply_value_row in E by (apply R; lia).
+          cbn [rrhs value_row] in E. exact E.
+    - intros j d Hj Hd.
+      assert (Hin : In (mkRow (deriv_entries order ((order + 1) * (j + 1 - 1)) d
+                                 ((xnode x (j + 1) - xnode x (j + 1 - 1)) / f2)%F false
+                               ++ deriv_entries order ((order + 1) * (j + 1)) d
+                                 ((xnode x (j + 1) - xnode x (j + 1 + 1)) / f2)%F true) f0)
+                       (sys_rows order x y bs)).
+      { apply (in_sys_interior order x y bs (j + 1)); [lia | lia |].
+        unfold irows. right. right. apply in_map_iff. exists d. split; [reflexivity|].
+        apply in_seq. lia. }
+      pose proof (Hsol _ Hin) as E. rewrite Nat.add_sub in E.
+      rewrite row_apply_smooth_row in E by (try apply R; lia).
+      cbn [rrhs] in E.
+      match goal with |- ?A = ?B => replace A with (A - B + B)%F by ring end.
+      rewrite E. ring.
+    - intros b Hb Hd Hnode.
+      pose proof (Hsol _ (in_sys_bfirst order x y bs b Hb Hnode)) as E.
+      destruct (row_apply_deriv_entries order 0 (bderiv b) ((xnode x 0 - xnode x 1) / f2)%F
+                  (bvalue b) c Hd ltac:(pose proof (R 0%nat ltac:(lia)); lia)) as [E1 _].
+      rewrite E1 in E. cbn [rrhs] in E. exact E.
+    - intros b Hb Hd Hnode.
+      pose proof (Hsol _ (in_sys_blast order x y bs b Hb Hnode)) as E.
+      destruct (row_apply_deriv_entries order ((order + 1) * (nnodes x - 2)) (bderiv b)
+                  ((xnode x (nnodes x - 1) - xnode x (nnodes x - 2)) / f2)%F
+                  (bvalue b) c Hd ltac:(apply R; lia)) as [E1 _].
+      rewrite E1 in E. cbn [rrhs] in E. exact E.
+  Qed.
+
+  (* node minus midpoint of an adjacent interval *)
+  Lemma half_left (a b : F) : (a - (a + b) / f2 = (a - b) / f2)%F.
+  Proof. pose proof (@f2_neq0 F K L) as H. rewrite f2_eq in *. field. exact H. Qed.
+
+  Lemma half_right (a b : F) : (b - (a + b) / f2 = (b - a) / f2)%F.
+  Proof. pose proof (@f2_neq0 F K L) as H. rewrite f2_eq in *. field. exact H. Qed.
+
+  (* ------------------------------------------------------------------ *)
+  (* main theorem                                                        *)
+  (* ------------------------------------------------------------------ *)
+
+  Lemma xnode_gnth (x : support F) k j : sstart x <= k -> j = N.to_nat (k - sstart x) ->
+    gnth (sgrid x) k = xnode x j.
+  Proof. intros H ->. unfold xnode. f_equal. lia. Qed.
+
+  Theorem interp_spec order (x : support F) y bs rows (c : list F) :
+    SInv x -> GInv (sgrid x) -> (1 <= order)%nat -> sup_size x = nlen y -> 2 <= sup_size x ->
+    bnd_ok order bs -> length bs = (order - 1)%nat ->
+    interp_system order x y bs = Ok rows -> length c = length rows -> solves rows c ->
+    exists s, interp_build order x c = Ok s /\ SplInv s /\ ssup s = x /\ sord s = order /\
+      (* (i) values, from each adjacent piece *)
+      (forall k, imem k x ->
+         peval (piece s k) (gnth (sgrid x) k - mid (sgrid x) k)%F
+         = nth (N.to_nat (k - sstart x)) y f0 /\
+         peval (piece s k) (gnth (sgrid x) (k + 1) - mid (sgrid x) k)%F
+         = nth (N.to_nat (k + 1 - sstart x)) y f0) /\
+      (* (ii) smoothness at interior nodes *)
+      (forall k d, imem k x -> imem (k + 1) x -> (1 <= d < order)%nat ->
+         dval (piece s k) d (gnth (sgrid x) (k + 1)) (mid (sgrid x) k)
+         = dval (piece s (k + 1)) d (gnth (sgrid x) (k + 1)) (mid (sgrid x) (k + 1))) /\
+      (* (iii) boundary conditions *)
+      (forall b, In b bs -> bnode b = FIRST ->
+         dval (piece s (sstart x)) (bderiv b) (gnth (sgrid x) (sstart x))
+           (mid (sgrid x) (sstart x)) = bvalue b) /\
+      (forall b, In b bs -> bnode b = LAST ->
+         dval (piece s (sstop x - 2)) (bderiv b) (gnth (sgrid x) (sstop x - 1))
+           (mid (sgrid x) (sstop x - 2)) = bvalue b).
+  Proof.
+    intros Hs Hg Ho Hlen H2 Hb Hbl Hsys Hc Hsol.
+    rewrite interp_system_eq in Hsys by assumption. injection Hsys as <-.
+    pose proof (sup_size_inv x Hs) as Hsz.
+    assert (Hn2 : (2 <= nnodes x)%nat) by (unfold nnodes; lia).
+    assert (Hy : length y = nnodes x) by (unfold nnodes, nlen in *; lia).
+    rewrite length_sys_rows in Hc by assumption.
+    destruct (interp_build_ok order x c Hs Hg H2) as [Hbuild Hinv].
+    { rewrite Hc, Hsz. reflexivity. }
+    destruct (sys_rows_sound order x y bs c Ho Hn2 Hy Hc Hsol) as (V & S & BF & BL).
+    exists (mkSpl x order (chunks (order + 1) (nnodes x - 1) c)).
+    split; [exact Hbuild|]. split; [exact Hinv|]. split; [reflexivity|]. split; [reflexivity|].
+    split; [|split; [|split]].
+    - intros k Hk. pose proof Hk as [Hk1 Hk2].
+      rewrite (piece_build order x c k Hk).
+      set (j := N.to_nat (k - sstart x)).
+      destruct (V j ltac:(unfold nnodes, j; lia)) as [V1 V2].
+      unfold mid. rewrite half_left, half_right.
+      rewrite (xnode_gnth x k j) by (unfold j; lia).
+      rewrite (xnode_gnth x (k + 1) (j + 1)) by (unfold j; lia).
+      replace (N.to_nat (k + 1 - sstart x)) with (j + 1)%nat by (unfold j; lia).
+      split; assumption.
+    - intros k d Hk Hk' Hd. pose proof Hk as [Hk1 Hk2]. pose proof Hk' as [Hk3 Hk4].
+      unfold dval. rewrite (piece_build order x c k Hk), (piece_build order x c (k + 1) Hk').
+      set (j := N.to_nat (k - sstart x)).
+      replace (N.to_nat (k + 1 - sstart x)) with (j + 1)%nat by (unfold j; lia).
+      unfold mid. rewrite half_left, half_right.
+      rewrite (xnode_gnth x k j) by (unfold j; lia).
+      rewrite (xnode_gnth x (k + 1) (j + 1)) by (unfold j; lia).
+      rewrite (xnode_gnth x (k + 1 + 1) (j + 1 + 1)) by (unfold j; lia).
+      apply S; [unfold nnodes, j; lia | exact Hd].
+    - intros b Hin Hnode.
+      assert (Hd : (1 <= bderiv b <= order)%nat).
+      { unfold bnd_ok in Hb. rewrite Forall_forall in Hb. apply Hb. exact Hin. }
+      assert (Hk : imem (sstart x) x) by (unfold imem; lia).
+      unfold dval. rewrite (piece_build order x c _ Hk).
+      replace (N.to_nat (sstart x - sstart x)) with 0%nat by lia. rewrite Nat.mul_0_r.
+      unfold mid. rewrite half_left.
+      rewrite (xnode_gnth x (sstart x) 0) by lia.
+      rewrite (xnode_gnth x (sstart x + 1) 1) by lia.
+      apply BF; assumption.
+    - intros b Hin Hnode.
+      assert (Hd : (1 <= bderiv b <= order)%nat).
+      { unfold bnd_ok in Hb. rewrite Forall_forall in Hb. apply Hb. exact Hin. }
+      assert (Hk : imem (sstop x - 2) x) by (unfold imem; lia).
+      unfold dval. rewrite (piece_build order x c _ Hk).
+      replace (N.to_nat (sstop x - 2 - sstart x)) with (nnodes x - 2)%nat by (unfold nnodes; lia).
+      unfold mid.
+      rewrite (xnode_gnth x (sstop x - 1) (nnodes x - 1)) by (unfold nnodes; lia).
+      rewrite (xnode_gnth x (sstop x - 2 + 1) (nnodes x - 1)) by (unfold nnodes; lia).
+      rewrite (xnode_gnth x (sstop x - 2) (nnodes x - 2)) by (unfold nnodes; lia).
+      rewrite half_right.
+      apply BL; assumption.
+  Qed.
+
+  (* the same for [interpolate] with any solver whose result solves the system *)
+  Corollary interpolate_spec (solver : nat -> list (row F) -> list F) order (x : support F) y bs :
+    SInv x -> GInv (sgrid x) -> (1 <= order)%nat -> sup_size x = nlen y -> 2 <= sup_size x ->
+    bnd_ok order bs -> length bs = (order - 1)%nat ->
+    (forall rows, interp_system order x y bs = Ok rows ->
+       length (solver (length rows) rows) = length rows /\
+       solves rows (solver (length rows) rows)) ->
+    exists s, interpolate solver order x y bs = Ok s /\ SplInv s /\ ssup s = x /\ sord s = order /\
+      (forall k, imem k x ->
+         peval (piece s k) (gnth (sgrid x) k - mid (sgrid x) k)%F
+         = nth (N.to_nat (k - sstart x)) y f0 /\
+         peval (piece s k) (gnth (sgrid x) (k + 1) - mid (sgrid x) k)%F
+         = nth (N.to_nat (k + 1 - sstart x)) y f0) /\
+      (forall k d, imem k x -> imem (k + 1) x -> (1 <= d < order)%nat ->
+         dval (piece s k) d (gnth (sgrid x) (k + 1)) (mid (sgrid x) k)
+         = dval (piece s (k + 1)) d (gnth (sgrid x) (k + 1)) (mid (sgrid x) (k + 1))) /\
+      (forall b, In b bs -> bnode b = FIRST ->
+         dval (piece s (sstart x)) (bderiv b) (gnth (sgrid x) (sstart x))
+           (mid (sgrid x) (sstart x)) = bvalue b) /\
+      (forall b, In b bs -> bnode b = LAST ->
+         dval (piece s (sstop x - 2)) (bderiv b) (gnth (sgrid x) (sstop x - 1))
+           (mid (sgrid x) (sstop x - 2)) = bvalue b).
+  Proof.
+    intros Hs Hg Ho Hlen H2 Hb Hbl Hsolver.
+    destruct (interp_system_ok order x y bs Hs Hg Ho Hlen H2 Hb Hbl) as (rows & Hsys & _).
+    destruct (Hsolver rows Hsys) as [Hl Hsol].
+    destruct (interp_spec order x y bs rows _ Hs Hg Ho Hlen H2 Hb Hbl Hsys Hl Hsol)
+      as (s & Hbuild & Hrest).
+    exists s. split; [|exact Hrest].
+    unfold interpolate. rewrite Hsys. cbn [bind]. exact Hbuild.
   Qed.
 
 End InterpFacts.
